@@ -125,3 +125,23 @@ func MediaTypeDetect(raw []byte) string {
 	}
 	return MediaTypeOCI1Manifest
 }
+
+// MediaTypeMatchesContent returns false when the raw manifest is clearly the other kind of manifest than the media type claims.
+// An image manifest (config or layers, no manifests list) does not match an index media type, and an index (manifests list, no config or layers) does not match an image media type.
+// Content that cannot be parsed or is ambiguous is not rejected here.
+func MediaTypeMatchesContent(mt string, raw []byte) bool {
+	m := mtDetect{}
+	err := json.Unmarshal(raw, &m)
+	if err != nil {
+		return true
+	}
+	isImage := m.Config.Digest != "" || m.Config.MediaType != "" || len(m.Layers) > 0
+	isIndex := m.Manifests != nil
+	if MediaTypeIndex(mt) && isImage && !isIndex {
+		return false
+	}
+	if MediaTypeImage(mt) && isIndex && !isImage {
+		return false
+	}
+	return true
+}
